@@ -77,7 +77,8 @@ class FakeImage:
         self.dataobj = FakeProxy(raw, slope, inter)
         self.affine = real_np.diag([1.0, 1.0, 1.0, 1.0]) if affine is None else affine
         shape = raw.shape
-        self.header = types.SimpleNamespace(get_data_shape=lambda: shape)
+        self.header = types.SimpleNamespace(get_data_shape=lambda: shape, get_data_dtype=lambda: raw.dtype)
+        self.get_data_dtype = lambda: raw.dtype           # the on-disk (unscaled) data type
 
 
 class World:
